@@ -1,15 +1,17 @@
 /-
   Lemmas for C06, second part: the model client of `Model/Session.lean` talking to the reference
-  BMC of `Spec/BmcSession.lean`, one exchange at a time (what the client sends in each state,
-  what the BMC makes of it, what the client reads from the answer).
+  BMC of `Spec/BmcSession.lean`, one attempt at a time: what the client sends in each state, what
+  the BMC makes of it when it arrives (`step`) and what the monitor makes of it when it is lost
+  (`stepLost`), what the client reads from the answer.
 -/
 import PyIpmi.Lemmas.RmcpSession
 namespace PyIpmi.Session
 open PyIpmi PyIpmi.RmcpWire PyIpmi.Gen.RmcpFormats PyIpmi.Spec.Lan PyIpmi.Spec.BmcSession PyIpmi.Props.C05
 
 /-- The console configuration `cfg` and the BMC `b` belong together (same user, password,
-privilege level), the values the BMC hands out are 32-bit / 16 bytes, the BMC offers at least
-one authentication type that the library implements. -/
+privilege level), the values the BMC hands out are 32-bit / 16 bytes, the random initial
+outbound sequence number is what `random.randrange(1, 0xffffffff)` can return, requests are
+addressed to the BMC. -/
 structure Conforming (b : BmcCfg) (cfg : Cfg) : Prop where
   user : b.user = cfg.user
   pw : b.pw = cfg.pw
@@ -39,361 +41,17 @@ theorem nextSeq_ne_zero (s : Nat) : nextSeq s ≠ 0 := by
 theorem inWindow_next (s : Nat) : inWindow s (nextSeq s) = true := by
   simp [inWindow]
 
-/-! ### what the client sends -/
+/-- the sequence number `n` datagrams after `s` -/
+def seqAfter : Nat → Nat → Nat
+  | 0, s => s
+  | n + 1, s => seqAfter n (nextSeq s)
 
-theorem tx_attached (md5 : List Nat → List Nat) (hmd5 : ∀ x, (md5 x).length = 16) (cfg : Cfg) (c : Client)
-    (cmd : Nat) (data : List Nat) (hat : c.attached = true)
-    (hauth : c.s.auth = 0 ∨ c.s.auth = 4 ∨ c.s.auth = 2) (hsid : c.s.sid < 4294967296)
-    (hseq : c.s.seq < 4294967296) (hpw : c.s.pw.length ≤ 16) (hlen : data.length + 7 ≤ 255) :
-    ∃ d code, txStep md5 cfg c 6 0 cmd data =
-        ({ c with rqSeq := (c.rqSeq + 1) % 64, s := { c.s with seq := carriedSeq c.s } }, hdrOf cfg c cmd, .ok d) ∧
-      expectedCode md5 c.s.auth c.s.pw c.s.sid (carriedSeq c.s) (ipmbEncode (hdrOf cfg c cmd) data) = some code ∧
-      parseLan d = some { ver := 6, rsvd := 0, rmcpSeq := 255, cls := 7, auth := c.s.auth, seq := carriedSeq c.s,
-                          sid := c.s.sid, code := code, len := data.length + 7,
-                          payload := ipmbEncode (hdrOf cfg c cmd) data } := by
-  have hl : (ipmbEncode (hdrOf cfg c cmd) data).length ≤ 255 := by rw [ipmbEncode_length]; exact hlen
-  obtain ⟨d, code, h1, h2, h3⟩ := pack_wellformed md5 hmd5 c.s (ipmbEncode (hdrOf cfg c cmd) data) 255
-    hauth hsid hseq hpw hl (by decide)
-  refine ⟨d, code, ?_, h2, ?_⟩
-  · have hs : (match sessAfterPack (some c.s) with
-        | some s' => s'
-        | none => c.s) = { c.s with seq := carriedSeq c.s } := by
-      obtain ⟨a, sid, seq, act, pw⟩ := c.s
-      cases act <;> simp [sessAfterPack, carriedSeq]
-    simp only [txStep, hat, if_true]
-    simp [hdrOf, rmcpInitialSeq] at h1 ⊢
-    exact ⟨hs, h1⟩
-  · rw [ipmbEncode_length] at h3
-    exact h3
+theorem seqAfter_succ (n s : Nat) : seqAfter (n + 1) s = nextSeq (seqAfter n s) := by
+  induction n generalizing s with
+  | zero => rfl
+  | succ n ih => simp only [seqAfter] at ih ⊢; rw [ih]
 
-/-! ### one exchange against any peer -/
-
-theorem exchange_of_tx {σ : Type} (md5 : List Nat → List Nat) (P : σ → List Nat → σ × Option (List Nat))
-    (cfg : Cfg) (p : σ) (c c' : Client) (h : ReqHdr) (d : List Nat) (netfn lun cmd : Nat) (data : List Nat)
-    (htx : txStep md5 cfg c netfn lun cmd data = (c', h, .ok d)) :
-    exchange md5 P cfg p c netfn lun cmd data = ((P p d).1, c', [d], rxStep cfg h (P p d).2) := by
-  simp [exchange, htx]
-
-/-- the presence ping datagram -/
-def pingD : List Nat := [6, 0, 255, 6, 0, 0, 0x11, 0xbe, 0x80, 0, 0, 0]
-
-theorem ping_reply {σ : Type} (P : σ → List Nat → σ × Option (List Nat)) (p : σ) (r : List Nat)
-    (h : (P p pingD).2 = some r) : ping P p = ((P p pingD).1, [pingD], receivePong r) := by
-  have h0 : pingDatagram rmcpInitialSeq = .ok pingD := by decide
-  simp only [ping, h0, h]
-
-theorem ping_silent {σ : Type} (P : σ → List Nat → σ × Option (List Nat)) (p : σ)
-    (h : (P p pingD).2 = none) : ping P p = ((P p pingD).1, [pingD], .pyError "TimeoutError") := by
-  have h0 : pingDatagram rmcpInitialSeq = .ok pingD := by decide
-  simp only [ping, h0, h]
-
-/-! ### the reference BMC, step by step -/
-
-theorem bmc_ping (md5 : List Nat → List Nat) (b : BmcCfg) (st : BmcState) (hs : st.phase = .start) :
-    step md5 b st pingD = ({ st with phase := .pinged },
-      .reply (pongBytes 0 [0, 0, 0x11, 0xbe] [0, 0, 0, 0] 0x81 0)) := by
-  simp [step, hs, pingD, parseAsf, u32le]
-
-theorem pong_ok : receivePong (pongBytes 0 [0, 0, 0x11, 0xbe] [0, 0, 0, 0] 0x81 0) = .ok () := by decide
-
-theorem userField_eq (u : List Nat) : userField u = pad16 u := by
-  unfold userField pad16
-  cases u <;> simp
-
-theorem pad16_len (u : List Nat) (h : u.length ≤ 16) : (pad16 u).length = 16 := pad16_length u h
-
-/-- a datagram sent before the session object is attached: outside any session -/
-theorem tx_unattached' (md5 : List Nat → List Nat) (cfg : Cfg) (c : Client)
-    (cmd : Nat) (data : List Nat) (hat : c.attached = false) (hlen : data.length + 7 ≤ 255) :
-    ∃ d, txStep md5 cfg c 6 0 cmd data = ({ c with rqSeq := (c.rqSeq + 1) % 64 }, hdrOf cfg c cmd, .ok d) ∧
-      parseLan d = some { ver := 6, rsvd := 0, rmcpSeq := 255, cls := 7, auth := 0, seq := 0, sid := 0, code := none,
-                          len := data.length + 7, payload := ipmbEncode (hdrOf cfg c cmd) data } := by
-  have hl : (ipmbEncode (hdrOf cfg c cmd) data).length ≤ 255 := by rw [ipmbEncode_length]; exact hlen
-  obtain ⟨d, h1, h2⟩ := pack_wellformed_nosession md5 (ipmbEncode (hdrOf cfg c cmd) data) 255 hl (by decide)
-  refine ⟨d, ?_, ?_⟩
-  · simp [txStep, hat, sessAfterPack, hdrOf, rmcpInitialSeq] at h1 ⊢
-    exact h1
-  · rw [ipmbEncode_length] at h2
-    exact h2
-
-/-- the BMC, past the ping and not closed, looks at a well-formed datagram of the client -/
-theorem step_client (md5 : List Nat → List Nat) (b : BmcCfg) (cfg : Cfg) (st : BmcState) (c : Client)
-    (cmd : Nat) (data d : List Nat) (p : LanPacket) (hrs : cfg.rsSa = 0x20)
-    (hs : st.phase ≠ .start) (hc : st.phase ≠ .closed)
-    (hp : parseLan d = some p) (hv : p.ver = 6) (hcl : p.cls = 7) (hl : p.len = data.length + 7)
-    (hpl : p.payload = ipmbEncode (hdrOf cfg c cmd) data) :
-    step md5 b st d = handle md5 b st p (reqOf (hdrOf cfg c cmd) data) :=
-  step_parsed md5 b st d p _ hs hc hp hv hcl (by rw [hl, hpl, ipmbEncode_length])
-    (by rw [hpl]; exact parseIpmiReq_encode _ _ (by simp [hdrOf]) (by simp [hdrOf]))
-    (by simp [reqOf, hdrOf, hrs, bmcAddr])
-
-/-- Get Channel Authentication Capabilities: sent outside any session, accepted, answered with
-the capability byte -/
-theorem bmc_authCap (md5 : List Nat → List Nat) (hmd5 : ∀ x, (md5 x).length = 16)
-    (b : BmcCfg) (cfg : Cfg) (conf : Conforming b cfg) (st : BmcState) (c : Client)
-    (hph : st.phase = .pinged) (hat : c.attached = false) :
-    ∃ d p, txStep md5 cfg c 6 0 56 [0x0e, cfg.priv % 16] =
-        ({ c with rqSeq := (c.rqSeq + 1) % 64 }, hdrOf cfg c 56, .ok d) ∧
-      parseLan d = some p ∧ p.auth = 0 ∧ p.sid = 0 ∧ p.seq = 0 ∧
-      parseIpmiReq p.payload = some (reqOf (hdrOf cfg c 56) [0x0e, cfg.priv % 16]) ∧
-      step md5 b st d = ({ st with phase := .capsSent },
-        .reply (lanPacket md5 0 [] 0 0 (ipmiRsp (reqOf (hdrOf cfg c 56) [0x0e, cfg.priv % 16]) 0
-          [1, b.caps % 64, 0, 0, 0, 0, 0, 0]))) ∧
-      rxStep cfg (hdrOf cfg c 56) (some (lanPacket md5 0 [] 0 0
-        (ipmiRsp (reqOf (hdrOf cfg c 56) [0x0e, cfg.priv % 16]) 0 [1, b.caps % 64, 0, 0, 0, 0, 0, 0]))) =
-        .ok [0, 1, b.caps % 64, 0, 0, 0, 0, 0, 0] := by
-  obtain ⟨d, h1, h2⟩ := tx_unattached' md5 cfg c 56 [0x0e, cfg.priv % 16] hat (by simp)
-  refine ⟨d, _, h1, h2, rfl, rfl, rfl, ?_, ?_, ?_⟩
-  · exact parseIpmiReq_encode _ _ (by simp [hdrOf]) (by simp [hdrOf])
-  · rw [step_client md5 b cfg st c 56 _ d _ conf.rsSa (by simp [hph]) (by simp [hph]) h2 rfl rfl rfl rfl]
-    have hp : cfg.priv % 16 % 16 = b.priv := by rw [conf.priv]; have := conf.privLt; omega
-    simp [handle, hph, reqOf, hdrOf, Spec.BmcSession.netfnApp, Spec.BmcSession.cmdGetAuthCap, hp]
-  · exact rxStep_reply md5 hmd5 cfg _ _ 0 [] 0 0 0 _ (Or.inl rfl) (by simp) (by decide) (by decide) rfl
-      (by simp [hdrOf]) (by simp [hdrOf]) (by simp [hdrOf, cmdSendMessage])
-
-/-- Get Session Challenge: sent outside any session, names the chosen authentication type and
-the configured user; answered with the temporary session id and the challenge -/
-theorem bmc_challenge (md5 : List Nat → List Nat) (hmd5 : ∀ x, (md5 x).length = 16)
-    (b : BmcCfg) (cfg : Cfg) (conf : Conforming b cfg) (st : BmcState) (c : Client) (a : Nat)
-    (ha : a = 0 ∨ a = 4 ∨ a = 2) (hoff : offered b.caps a = true)
-    (hph : st.phase = .capsSent) (hat : c.attached = false) :
-    ∃ d p, txStep md5 cfg c 6 0 57 ([a % 16] ++ userField cfg.user) =
-        ({ c with rqSeq := (c.rqSeq + 1) % 64 }, hdrOf cfg c 57, .ok d) ∧
-      parseLan d = some p ∧ p.auth = 0 ∧ p.sid = 0 ∧ p.seq = 0 ∧
-      parseIpmiReq p.payload = some (reqOf (hdrOf cfg c 57) (a :: pad16 cfg.user)) ∧
-      step md5 b st d = ({ st with phase := .challenged a },
-        .reply (lanPacket md5 0 [] 0 0 (ipmiRsp (reqOf (hdrOf cfg c 57) (a :: pad16 cfg.user)) 0
-          (leBytes 4 b.tempSid ++ b.challenge)))) ∧
-      rxStep cfg (hdrOf cfg c 57) (some (lanPacket md5 0 [] 0 0
-        (ipmiRsp (reqOf (hdrOf cfg c 57) (a :: pad16 cfg.user)) 0 (leBytes 4 b.tempSid ++ b.challenge)))) =
-        .ok (0 :: (leBytes 4 b.tempSid ++ b.challenge)) := by
-  have ha16 : a % 16 = a := by rcases ha with h | h | h <;> subst h <;> rfl
-  have hd : [a % 16] ++ userField cfg.user = a :: pad16 cfg.user := by rw [ha16, userField_eq]; rfl
-  have hul := pad16_length cfg.user conf.userLen
-  rw [hd]
-  obtain ⟨d, h1, h2⟩ := tx_unattached' md5 cfg c 57 (a :: pad16 cfg.user) hat (by simp [hul])
-  refine ⟨d, _, h1, h2, rfl, rfl, rfl, ?_, ?_, ?_⟩
-  · exact parseIpmiReq_encode _ _ (by simp [hdrOf]) (by simp [hdrOf])
-  · rw [step_client md5 b cfg st c 57 _ d _ conf.rsSa (by simp [hph]) (by simp [hph]) h2 rfl rfl rfl rfl]
-    simp [handle, hph, reqOf, hdrOf, Spec.BmcSession.netfnApp, Spec.BmcSession.cmdGetChallenge, hul, ha16, hoff,
-      conf.user]
-  · exact rxStep_reply md5 hmd5 cfg _ _ 0 [] 0 0 0 _ (Or.inl rfl) (by simp) (by decide) (by decide) rfl
-      (by simp [hdrOf]) (by simp [hdrOf]) (by simp [hdrOf, cmdSendMessage])
-
-theorem codeOk_of (md5 : List Nat → List Nat) (pw : List Nat) (p : LanPacket) (code : Option (List Nat))
-    (h : expectedCode md5 p.auth pw p.sid p.seq p.payload = some code) (hc : p.code = code) :
-    codeOk md5 pw p = true := by
-  simp [codeOk, h, hc]
-
-theorem handle_activate (md5 : List Nat → List Nat) (b : BmcCfg) (st : BmcState) (p : LanPacket) (rq : IpmiReq)
-    (a out : Nat) (hph : st.phase = .challenged a) (hnf : rq.netfn = 6) (hcmd : rq.cmd = 58)
-    (hpa : p.auth = a) (hps : p.sid = b.tempSid) (hcode : codeOk md5 b.pw p = true)
-    (hdata : rq.data = [a, b.priv] ++ b.challenge ++ leBytes 4 out) (ha16 : a % 16 = a)
-    (hp : b.priv % 16 = b.priv) (hch : b.challenge.length = 16) (hout : out ≠ 0) (hlt : out < 4294967296) :
-    handle md5 b st p rq = ({ st with phase := .active a none, outSeq := nextSeq out },
-      .reply (lanPacket md5 a b.pw b.sid out
-        (ipmiRsp rq 0 ([a] ++ leBytes 4 b.sid ++ leBytes 4 b.inSeq0 ++ [b.priv])))) := by
-  have hv : leVal (leBytes 4 out) = out := leVal_leBytes 4 _ hlt
-  have htk : List.take 16 (b.challenge ++ leBytes 4 out) = b.challenge := by
-    rw [List.take_append_of_le_length (by simp [hch])]
-    exact List.take_of_length_le (by simp [hch])
-  have hdr : List.drop 16 (b.challenge ++ leBytes 4 out) = leBytes 4 out := by
-    rw [← hch]; exact List.drop_left
-  simp [handle, hph, hnf, hcmd, hpa, hps, hcode, hdata, Spec.BmcSession.netfnApp, Spec.BmcSession.cmdActivate,
-    hch, ha16, hp, htk, hdr, hv, hout]
-
-/-- Activate Session: sent under the temporary session id with the chosen authentication type,
-echoes the challenge, asks for the configured privilege level; the BMC grants the session -/
-theorem bmc_activate (md5 : List Nat → List Nat) (hmd5 : ∀ x, (md5 x).length = 16)
-    (b : BmcCfg) (cfg : Cfg) (conf : Conforming b cfg) (st : BmcState) (c : Client) (a : Nat)
-    (ha : a = 0 ∨ a = 4 ∨ a = 2) (hph : st.phase = .challenged a) (hat : c.attached = true)
-    (hca : c.s.auth = a) (hcs : c.s.sid = b.tempSid) (hcp : c.s.pw = cfg.pw) (hcq : c.s.seq < 4294967296) :
-    ∃ d p, txStep md5 cfg c 6 0 58 ([c.s.auth % 16, cfg.priv % 16] ++ b.challenge ++ leBytes 4 cfg.outSeq) =
-        ({ c with rqSeq := (c.rqSeq + 1) % 64, s := { c.s with seq := carriedSeq c.s } }, hdrOf cfg c 58, .ok d) ∧
-      parseLan d = some p ∧ p.auth = a ∧ p.sid = b.tempSid ∧ codeOk md5 cfg.pw p = true ∧
-      parseIpmiReq p.payload = some (reqOf (hdrOf cfg c 58)
-        ([a, cfg.priv] ++ b.challenge ++ leBytes 4 cfg.outSeq)) ∧
-      step md5 b st d = ({ st with phase := .active a none, outSeq := nextSeq cfg.outSeq },
-        .reply (lanPacket md5 a b.pw b.sid cfg.outSeq
-          (ipmiRsp (reqOf (hdrOf cfg c 58) ([a, cfg.priv] ++ b.challenge ++ leBytes 4 cfg.outSeq)) 0
-            ([a] ++ leBytes 4 b.sid ++ leBytes 4 b.inSeq0 ++ [b.priv])))) ∧
-      rxStep cfg (hdrOf cfg c 58) (some (lanPacket md5 a b.pw b.sid cfg.outSeq
-          (ipmiRsp (reqOf (hdrOf cfg c 58) ([a, cfg.priv] ++ b.challenge ++ leBytes 4 cfg.outSeq)) 0
-            ([a] ++ leBytes 4 b.sid ++ leBytes 4 b.inSeq0 ++ [b.priv])))) =
-        .ok (0 :: ([a] ++ leBytes 4 b.sid ++ leBytes 4 b.inSeq0 ++ [b.priv])) := by
-  have ha16 : a % 16 = a := by rcases ha with h | h | h <;> subst h <;> rfl
-  have hp16 : cfg.priv % 16 = cfg.priv := Nat.mod_eq_of_lt conf.privLt
-  have hd : [c.s.auth % 16, cfg.priv % 16] ++ b.challenge ++ leBytes 4 cfg.outSeq =
-      [a, cfg.priv] ++ b.challenge ++ leBytes 4 cfg.outSeq := by rw [hca, ha16, hp16]
-  rw [hd]
-  obtain ⟨d, code, h1, h2, h3⟩ := tx_attached md5 hmd5 cfg c 58 ([a, cfg.priv] ++ b.challenge ++ leBytes 4 cfg.outSeq)
-    hat (by rw [hca]; exact ha) (by rw [hcs]; exact conf.tempSid) hcq (by rw [hcp]; exact conf.pwLen)
-    (by simp [conf.chalLen])
-  have hcode := codeOk_of md5 cfg.pw ⟨6, 0, 255, 7, c.s.auth, carriedSeq c.s, c.s.sid, code,
-    ([a, cfg.priv] ++ b.challenge ++ leBytes 4 cfg.outSeq).length + 7,
-    ipmbEncode (hdrOf cfg c 58) ([a, cfg.priv] ++ b.challenge ++ leBytes 4 cfg.outSeq)⟩ code
-    (by rw [← hcp]; exact h2) rfl
-  refine ⟨d, _, h1, h3, hca, hcs, hcode, ?_, ?_, ?_⟩
-  · exact parseIpmiReq_encode _ _ (by simp [hdrOf]) (by simp [hdrOf])
-  · rw [step_client md5 b cfg st c 58 _ d _ conf.rsSa (by simp [hph]) (by simp [hph]) h3 rfl rfl rfl rfl]
-    exact handle_activate md5 b st _ _ a cfg.outSeq hph rfl rfl hca hcs (by rw [conf.pw]; exact hcode)
-      (by simp [reqOf, conf.priv]) ha16 (by rw [conf.priv]; exact hp16) conf.chalLen conf.outSeqPos conf.outSeqLt
-  · exact rxStep_reply md5 hmd5 cfg _ _ a b.pw b.sid cfg.outSeq 0 _ ha (by rw [conf.pw]; exact conf.pwLen)
-      conf.sid conf.outSeqLt rfl (by simp [hdrOf]) (by simp [hdrOf]) (by simp [hdrOf, cmdSendMessage])
-
-/-! ### inside the session -/
-
-theorem handle_active (md5 : List Nat → List Nat) (b : BmcCfg) (st : BmcState) (p : LanPacket) (rq : IpmiReq)
-    (a : Nat) (last : Option Nat) (hph : st.phase = .active a last)
-    (hpa : p.auth = a) (hps : p.sid = b.sid) (hcode : codeOk md5 b.pw p = true) (hz : p.seq ≠ 0)
-    (hseq : match last with
-      | none => inWindow b.inSeq0 p.seq = true
-      | some l => p.seq = nextSeq l) :
-    handle md5 b st p rq = inSession md5 b st a p.seq rq := by
-  cases last with
-  | none => simp at hseq; simp [handle, hph, hpa, hps, hcode, hz, hseq]
-  | some l => simp at hseq; simp [handle, hph, hpa, hps, hcode, hseq, nextSeq_ne_zero]
-
-theorem inSession_setPriv (md5 : List Nat → List Nat) (b : BmcCfg) (st : BmcState) (a seq lvl : Nat) (rq : IpmiReq)
-    (hnf : rq.netfn = 6) (hcmd : rq.cmd = 59) (hdata : rq.data = [lvl]) :
-    inSession md5 b st a seq rq = ({ st with phase := .active a (some seq), outSeq := nextSeq st.outSeq },
-      .reply (lanPacket md5 a b.pw b.sid st.outSeq (ipmiRsp rq 0 [lvl % 16]))) := by
-  simp [inSession, hnf, hcmd, hdata, Spec.BmcSession.netfnApp, Spec.BmcSession.cmdClose, Spec.BmcSession.cmdSetPriv]
-
-theorem inSession_getDeviceId (md5 : List Nat → List Nat) (b : BmcCfg) (st : BmcState) (a seq : Nat) (rq : IpmiReq)
-    (hnf : rq.netfn = 6) (hcmd : rq.cmd = 1) :
-    inSession md5 b st a seq rq = ({ st with phase := .active a (some seq), outSeq := nextSeq st.outSeq },
-      .reply (lanPacket md5 a b.pw b.sid st.outSeq (ipmiRsp rq 0 deviceIdData))) := by
-  simp [inSession, hnf, hcmd, Spec.BmcSession.netfnApp, Spec.BmcSession.cmdClose, Spec.BmcSession.cmdSetPriv,
-    Spec.BmcSession.cmdGetDeviceId]
-
-theorem inSession_close (md5 : List Nat → List Nat) (b : BmcCfg) (st : BmcState) (a seq : Nat) (rq : IpmiReq)
-    (hnf : rq.netfn = 6) (hcmd : rq.cmd = 60) (hdata : rq.data = leBytes 4 b.sid) :
-    inSession md5 b st a seq rq = ({ st with phase := .closed, outSeq := nextSeq st.outSeq },
-      .reply (lanPacket md5 a b.pw b.sid st.outSeq (ipmiRsp rq 0 []))) := by
-  simp [inSession, hnf, hcmd, hdata, Spec.BmcSession.netfnApp, Spec.BmcSession.cmdClose]
-
-/-- The session is up: BMC in phase `active a last`, the client's session object activated with
-the granted id, and the client's stored sequence number is the last one the BMC accepted (the
-assigned initial value when none was sent yet). -/
-structure Live (b : BmcCfg) (cfg : Cfg) (a : Nat) (last : Option Nat) (st : BmcState) (c : Client) : Prop where
-  phase : st.phase = .active a last
-  outSeq : st.outSeq < 4294967296
-  attached : c.attached = true
-  auth : c.s.auth = a
-  sid : c.s.sid = b.sid
-  act : c.s.activated = true
-  pw : c.s.pw = cfg.pw
-  seq : c.s.seq = last.getD b.inSeq0
-  seqLt : c.s.seq < 4294967296
-
-/-- any request inside the session: the datagram carries the chosen authentication type, the
-granted session id, the successor of the stored sequence number and a valid authentication code;
-the BMC accepts the header -/
-theorem bmc_inSession (md5 : List Nat → List Nat) (hmd5 : ∀ x, (md5 x).length = 16)
-    (b : BmcCfg) (cfg : Cfg) (conf : Conforming b cfg) (st : BmcState) (c : Client) (a : Nat) (last : Option Nat)
-    (ha : a = 0 ∨ a = 4 ∨ a = 2) (live : Live b cfg a last st c) (cmd : Nat) (data : List Nat)
-    (hlen : data.length + 7 ≤ 255) :
-    ∃ d p, txStep md5 cfg c 6 0 cmd data =
-        ({ c with rqSeq := (c.rqSeq + 1) % 64, s := { c.s with seq := nextSeq c.s.seq } }, hdrOf cfg c cmd, .ok d) ∧
-      parseLan d = some p ∧ p.auth = a ∧ p.sid = b.sid ∧ p.seq = nextSeq c.s.seq ∧ codeOk md5 cfg.pw p = true ∧
-      parseIpmiReq p.payload = some (reqOf (hdrOf cfg c cmd) data) ∧
-      step md5 b st d = inSession md5 b st a (nextSeq c.s.seq) (reqOf (hdrOf cfg c cmd) data) := by
-  obtain ⟨d, code, h1, h2, h3⟩ := tx_attached md5 hmd5 cfg c cmd data live.attached (by rw [live.auth]; exact ha)
-    (by rw [live.sid]; exact conf.sid) live.seqLt (by rw [live.pw]; exact conf.pwLen) hlen
-  have hcs : carriedSeq c.s = nextSeq c.s.seq := by
-    simp [carriedSeq, live.act, incSeq_eq_nextSeq _ live.seqLt]
-  rw [hcs] at h1 h2 h3
-  have hcode := codeOk_of md5 cfg.pw ⟨6, 0, 255, 7, c.s.auth, nextSeq c.s.seq, c.s.sid, code,
-    data.length + 7, ipmbEncode (hdrOf cfg c cmd) data⟩ code (by rw [← live.pw]; exact h2) rfl
-  refine ⟨d, _, h1, h3, live.auth, live.sid, rfl, hcode, ?_, ?_⟩
-  · exact parseIpmiReq_encode _ _ (by simp [hdrOf]) (by simp [hdrOf])
-  · rw [step_client md5 b cfg st c cmd _ d _ conf.rsSa (by simp [live.phase]) (by simp [live.phase]) h3 rfl rfl rfl rfl]
-    refine handle_active md5 b st _ _ a last live.phase live.auth live.sid (by rw [conf.pw]; exact hcode)
-      (nextSeq_ne_zero _) ?_
-    cases last with
-    | none => have := live.seq; simp at this; simp [this, inWindow_next]
-    | some l => have := live.seq; simp at this; simp [this]
-
-/-! ### peers that relay the reference BMC
-
-The theorems are about any peer `P` whose state projects (`π`) onto a state of the reference BMC
-that it advances with every datagram; where it also hands on the BMC's answer unchanged
-(`Answers`), the exchange goes as with the BMC itself.  The BMC itself is the instance
-`π = id`; a BMC with a fault injected at one datagram is another one. -/
-
-section relay
-variable {σ : Type} (md5 : List Nat → List Nat) (b : BmcCfg) (P : σ → List Nat → σ × Option (List Nat))
-  (π : σ → BmcState)
-
-/-- `P` keeps a reference BMC up to date -/
-def Tracks : Prop := ∀ s d, π (P s d).1 = (peer md5 b (π s) d).1
-
-/-- in state `s`, `P` hands on the answer of the reference BMC -/
-def Answers (s : σ) : Prop := ∀ d, (P s d).2 = (peer md5 b (π s) d).2
-
-/-- `P` hands on the BMC's answers to the next `n` datagrams, whatever they are -/
-def AnswersFor : Nat → σ → Prop
-  | 0, _ => True
-  | n + 1, s => Answers md5 b P π s ∧ ∀ d, AnswersFor n (P s d).1
-
-variable {md5 b P π}
-
-theorem AnswersFor.mono {n m : Nat} (h : m ≤ n) : ∀ {s : σ}, AnswersFor md5 b P π n s → AnswersFor md5 b P π m s := by
-  induction m generalizing n with
-  | zero => intro _ _; trivial
-  | succ m ih =>
-    intro s hs
-    cases n with
-    | zero => omega
-    | succ n => exact ⟨hs.1, fun d => ih (by omega) (hs.2 d)⟩
-
-theorem relay_reply (ht : Tracks md5 b P π) (s : σ) (ha : Answers md5 b P π s) (d r : List Nat) (st' : BmcState)
-    (h : step md5 b (π s) d = (st', .reply r)) : π (P s d).1 = st' ∧ (P s d).2 = some r := by
-  have h1 := ht s d
-  have h2 := ha d
-  simp only [peer, h] at h1 h2
-  exact ⟨h1, h2⟩
-
-theorem peer_fst (st : BmcState) (d : List Nat) : (peer md5 b st d).1 = (step md5 b st d).1 := by
-  unfold peer; split <;> simp_all
-
-theorem tracks_step (ht : Tracks md5 b P π) (s : σ) (d : List Nat) : π (P s d).1 = (step md5 b (π s) d).1 := by
-  rw [ht s d, peer_fst]
-
-/-- the reference BMC itself -/
-theorem tracks_self : Tracks md5 b (peer md5 b) id := fun _ _ => rfl
-
-theorem answersFor_self (n : Nat) (st : BmcState) : AnswersFor md5 b (peer md5 b) id n st := by
-  induction n generalizing st with
-  | zero => trivial
-  | succ n ih => exact ⟨fun _ => rfl, fun d => ih _⟩
-
-end relay
-
-/-! ### what the monitor says about a list of datagrams -/
-
-/-- running the monitor from `st` over `ds` flags nothing and ends in `st'` -/
-def Accepts (md5 : List Nat → List Nat) (b : BmcCfg) (st : BmcState) (ds : List (List Nat)) (st' : BmcState) : Prop :=
-  run md5 b st ds = st' ∧ (verdicts md5 b st ds).all Verdict.isReply = true
-
-theorem Accepts.nil (md5 : List Nat → List Nat) (b : BmcCfg) (st : BmcState) : Accepts md5 b st [] st := ⟨rfl, rfl⟩
-
-theorem Accepts.one {md5 : List Nat → List Nat} {b : BmcCfg} {st : BmcState} {d : List Nat}
-    (h : (step md5 b st d).2.isReply = true) : Accepts md5 b st [d] (step md5 b st d).1 :=
-  ⟨rfl, by simp [verdicts, h]⟩
-
-theorem Accepts.append {md5 : List Nat → List Nat} {b : BmcCfg} {st st' st'' : BmcState} {l1 l2 : List (List Nat)}
-    (h1 : Accepts md5 b st l1 st') (h2 : Accepts md5 b st' l2 st'') : Accepts md5 b st (l1 ++ l2) st'' := by
-  induction l1 generalizing st with
-  | nil => obtain ⟨e, _⟩ := h1; simp [run] at e; subst e; exact h2
-  | cons d ds ih =>
-    obtain ⟨e1, e2⟩ := h1
-    simp only [run, verdicts, List.all_cons, Bool.and_eq_true] at e1 e2
-    have := ih ⟨e1, e2.2⟩
-    exact ⟨by simpa [run] using this.1, by simp [verdicts, e2.1, this.2]⟩
-
-/-! ### session packets -/
+/-! ### datagrams -/
 
 /-- `d` is a packet of the session: authentication type `a`, session id `sid`, session sequence
 number `seq`, and the authentication code those values demand -/
@@ -408,11 +66,6 @@ def OutsideSession (d : List Nat) : Prop :=
 def Carries (d : List Nat) (cmd : Nat) (data : List Nat) : Prop :=
   ∃ p rq, parseLan d = some p ∧ parseIpmiReq p.payload = some rq ∧ rq.rsAddr = 0x20 ∧ rq.netfn = 6 ∧
     rq.cmd = cmd ∧ rq.data = data
-
-/-- the sequence number `n` datagrams after `s` -/
-def seqAfter : Nat → Nat → Nat
-  | 0, s => s
-  | n + 1, s => seqAfter n (nextSeq s)
 
 /-- every datagram of `ds` is a session packet whose sequence number is the successor
 (`nextSeq`: +1, FFFFFFFFh is followed by 1) of the previous one's, the first one's of `s` -/
@@ -437,9 +90,458 @@ theorem Chain.get {md5 : List Nat → List Nat} {pw : List Nat} {a sid : Nat} {l
     | zero => simpa [seqAfter] using h.1
     | succ i => simpa [seqAfter] using ih h.2 i (by simpa using hi)
 
-theorem seqAfter_succ (n s : Nat) : seqAfter (n + 1) s = nextSeq (seqAfter n s) := by
-  induction n generalizing s with
-  | zero => rfl
-  | succ n ih => simp only [seqAfter] at ih ⊢; rw [ih]
+/-! ### what the client sends -/
+
+/-- the header `hdrStep` builds for the next request of client `c` -/
+def hdrOf (cfg : Cfg) (c : Client) (cmd : Nat) : ReqHdr :=
+  ⟨cfg.rsSa, 6, 0, cfg.rqSa, (c.rqSeq + 1) % 64, 0, cmd⟩
+
+/-- a request header for command `cmd` (NetFn App, LUN 0) addressed to the BMC -/
+structure BmcHdr (h : ReqHdr) (cmd : Nat) : Prop where
+  rsSa : h.rsSa = 0x20
+  netfn : h.netfn = 6
+  rsLun : h.rsLun = 0
+  rqLun : h.rqLun = 0
+  cmd : h.cmd = cmd
+
+theorem hdrStep_eq (cfg : Cfg) (c : Client) (cmd : Nat) :
+    hdrStep cfg c 6 0 cmd = ({ c with rqSeq := (c.rqSeq + 1) % 64 }, hdrOf cfg c cmd) := rfl
+
+theorem bmcHdr_hdrOf (cfg : Cfg) (c : Client) (cmd : Nat) (h : cfg.rsSa = 0x20) : BmcHdr (hdrOf cfg c cmd) cmd :=
+  ⟨h, rfl, rfl, rfl, rfl⟩
+
+/-- a datagram sent before the session object is attached: outside any session, client unchanged -/
+theorem pack_unattached (md5 : List Nat → List Nat) (c : Client) (sdu : List Nat)
+    (hat : c.attached = false) (hlen : sdu.length ≤ 255) :
+    ∃ d, packStep md5 c sdu = (c, .ok d) ∧
+      parseLan d = some { ver := 6, rsvd := 0, rmcpSeq := 255, cls := 7, auth := 0, seq := 0, sid := 0, code := none,
+                          len := sdu.length, payload := sdu } := by
+  obtain ⟨d, h1, h2⟩ := pack_wellformed_nosession md5 sdu 255 hlen (by decide)
+  refine ⟨d, ?_, h2⟩
+  obtain ⟨at_, s, q⟩ := c
+  simp only at hat
+  subst hat
+  simp [packStep, sessAfterPack, rmcpInitialSeq, h1]
+
+/-- a datagram sent with the session object attached -/
+theorem pack_attached (md5 : List Nat → List Nat) (hmd5 : ∀ x, (md5 x).length = 16) (c : Client)
+    (sdu : List Nat) (hat : c.attached = true)
+    (hauth : c.s.auth = 0 ∨ c.s.auth = 4 ∨ c.s.auth = 2) (hsid : c.s.sid < 4294967296)
+    (hseq : c.s.seq < 4294967296) (hpw : c.s.pw.length ≤ 16) (hlen : sdu.length ≤ 255) :
+    ∃ d code, packStep md5 c sdu = ({ c with s := { c.s with seq := carriedSeq c.s } }, .ok d) ∧
+      expectedCode md5 c.s.auth c.s.pw c.s.sid (carriedSeq c.s) sdu = some code ∧
+      parseLan d = some { ver := 6, rsvd := 0, rmcpSeq := 255, cls := 7, auth := c.s.auth, seq := carriedSeq c.s,
+                          sid := c.s.sid, code := code, len := sdu.length, payload := sdu } := by
+  obtain ⟨d, code, h1, h2, h3⟩ := pack_wellformed md5 hmd5 c.s sdu 255 hauth hsid hseq hpw hlen (by decide)
+  refine ⟨d, code, ?_, h2, h3⟩
+  obtain ⟨at_, ⟨a, sid, seq, act, pw⟩, q⟩ := c
+  simp only at hat
+  subst hat
+  cases act <;> simp [packStep, sessAfterPack, carriedSeq, rmcpInitialSeq] at h1 ⊢ <;> exact h1
+
+/-! ### one attempt against any peer -/
+
+/-- the presence ping datagram -/
+def pingD : List Nat := [6, 0, 255, 6, 0, 0, 0x11, 0xbe, 0x80, 0, 0, 0]
+
+theorem ping_reply {σ : Type} (P : σ → List Nat → σ × Option (List Nat)) (p : σ) (r : List Nat)
+    (h : (P p pingD).2 = some r) : ping P p = ((P p pingD).1, [pingD], receivePong r) := by
+  have h0 : pingDatagram rmcpInitialSeq = .ok pingD := by decide
+  simp only [ping, h0, h]
+
+theorem ping_silent {σ : Type} (P : σ → List Nat → σ × Option (List Nat)) (p : σ)
+    (h : (P p pingD).2 = none) : ping P p = ((P p pingD).1, [pingD], .pyError "TimeoutError") := by
+  have h0 : pingDatagram rmcpInitialSeq = .ok pingD := by decide
+  simp only [ping, h0, h]
+
+/-- an attempt that is answered with a frame the client accepts ends the request -/
+theorem tryLoop_answered {σ : Type} (md5 : List Nat → List Nat) (P : σ → List Nat → σ × Option (List Nat))
+    (cfg : Cfg) (h : ReqHdr) (sdu : List Nat) (n : Nat) (p : σ) (c c' : Client) (d : List Nat) (pl : List Nat)
+    (hp : packStep md5 c sdu = (c', .ok d)) (hr : rxStep cfg h (P p d).2 = .ok pl) :
+    tryLoop md5 P cfg h sdu (n + 1) p c = ((P p d).1, c', [d], .ok pl) := by
+  simp only [tryLoop, hp, hr]
+
+/-- an attempt that gets no answer is followed by the next one -/
+theorem tryLoop_lost {σ : Type} (md5 : List Nat → List Nat) (P : σ → List Nat → σ × Option (List Nat))
+    (cfg : Cfg) (h : ReqHdr) (sdu : List Nat) (n : Nat) (p : σ) (c c' : Client) (d : List Nat)
+    (hp : packStep md5 c sdu = (c', .ok d)) (hr : (P p d).2 = none) :
+    tryLoop md5 P cfg h sdu (n + 1) p c =
+      ((tryLoop md5 P cfg h sdu n (P p d).1 c').1, (tryLoop md5 P cfg h sdu n (P p d).1 c').2.1,
+       d :: (tryLoop md5 P cfg h sdu n (P p d).1 c').2.2.1, (tryLoop md5 P cfg h sdu n (P p d).1 c').2.2.2) := by
+  simp only [tryLoop, hp, hr, rxStep]
+
+/-! ### the reference BMC, attempt by attempt -/
+
+theorem bmc_ping (md5 : List Nat → List Nat) (b : BmcCfg) (st : BmcState) (hs : st.phase = .start) :
+    step md5 b st pingD = ({ st with phase := .pinged },
+      .reply (pongBytes 0 [0, 0, 0x11, 0xbe] [0, 0, 0, 0] 0x81 0)) := by
+  simp [step, hs, pingD, parseAsf, u32le]
+
+theorem pong_ok : receivePong (pongBytes 0 [0, 0, 0x11, 0xbe] [0, 0, 0, 0] 0x81 0) = .ok () := by decide
+
+theorem userField_eq (u : List Nat) : userField u = pad16 u := by
+  unfold userField pad16
+  cases u <;> simp
+
+/-- the BMC, past the ping and not closed, looks at a well-formed datagram of the client -/
+theorem step_client (md5 : List Nat → List Nat) (b : BmcCfg) (st : BmcState) (h : ReqHdr) (cmd : Nat)
+    (data d : List Nat) (p : LanPacket) (hh : BmcHdr h cmd)
+    (hs : st.phase ≠ .start) (hc : st.phase ≠ .closed)
+    (hp : parseLan d = some p) (hv : p.ver = 6) (hcl : p.cls = 7) (hl : p.len = (ipmbEncode h data).length)
+    (hpl : p.payload = ipmbEncode h data) :
+    step md5 b st d = handle md5 b st p (reqOf h data) :=
+  step_parsed md5 b st d p _ hs hc hp hv hcl (by rw [hl, hpl])
+    (by rw [hpl]; exact parseIpmiReq_encode _ _ (by simp [hh.rsLun]) (by simp [hh.rqLun]))
+    (by simp [reqOf, hh.rsSa, bmcAddr])
+
+/-- a lost datagram that the monitor accepts before the session is active leaves no trace -/
+theorem stepLost_before (md5 : List Nat → List Nat) (b : BmcCfg) (st st' : BmcState) (d r : List Nat)
+    (h : step md5 b st d = (st', .reply r)) (hph : ∀ a l, st.phase ≠ .active a l) :
+    stepLost md5 b st d = (st, .reply r) := by
+  simp only [stepLost, h]
+  split
+  · rename_i a l p hp _; exact absurd hp (hph a l)
+  · rfl
+
+/-- a lost datagram that the monitor accepts inside the session: its sequence number is counted -/
+theorem stepLost_active (md5 : List Nat → List Nat) (b : BmcCfg) (st st' : BmcState) (d r : List Nat)
+    (p : LanPacket) (a : Nat) (l : Option Nat)
+    (h : step md5 b st d = (st', .reply r)) (hph : st.phase = .active a l) (hp : parseLan d = some p) :
+    stepLost md5 b st d = ({ st with phase := .active a (some p.seq) }, .reply r) := by
+  simp only [stepLost, h, hph, hp]
+
+theorem carries_of (d : List Nat) (p : LanPacket) (h : ReqHdr) (cmd : Nat) (data : List Nat) (hh : BmcHdr h cmd)
+    (hp : parseLan d = some p) (hpl : p.payload = ipmbEncode h data) : Carries d cmd data :=
+  ⟨p, reqOf h data, hp, by rw [hpl]; exact parseIpmiReq_encode _ _ (by simp [hh.rsLun]) (by simp [hh.rqLun]),
+    hh.rsSa, hh.netfn, hh.cmd, rfl⟩
+
+/-- Get Channel Authentication Capabilities: sent outside any session, accepted, answered with
+the capability byte -/
+theorem bmc_authCap (md5 : List Nat → List Nat) (hmd5 : ∀ x, (md5 x).length = 16)
+    (b : BmcCfg) (cfg : Cfg) (conf : Conforming b cfg) (st : BmcState) (c : Client) (h : ReqHdr)
+    (hh : BmcHdr h 56) (hph : st.phase = .pinged) (hat : c.attached = false) :
+    ∃ d r, packStep md5 c (ipmbEncode h [0x0e, cfg.priv % 16]) = (c, .ok d) ∧
+      OutsideSession d ∧ Carries d 56 [0x0e, cfg.priv] ∧
+      step md5 b st d = ({ st with phase := .capsSent }, .reply r) ∧
+      stepLost md5 b st d = (st, .reply r) ∧
+      rxStep cfg h (some r) = .ok [0, 1, b.caps % 64, 0, 0, 0, 0, 0, 0] := by
+  have hp16 : cfg.priv % 16 = cfg.priv := Nat.mod_eq_of_lt conf.privLt
+  obtain ⟨d, h1, h2⟩ := pack_unattached md5 c (ipmbEncode h [0x0e, cfg.priv % 16]) hat (by simp [ipmbEncode_length])
+  have hstep : step md5 b st d = ({ st with phase := .capsSent },
+      .reply (lanPacket md5 0 [] 0 0 (ipmiRsp (reqOf h [0x0e, cfg.priv % 16]) 0 [1, b.caps % 64, 0, 0, 0, 0, 0, 0]))) := by
+    rw [step_client md5 b st h 56 _ d _ hh (by simp [hph]) (by simp [hph]) h2 rfl rfl rfl rfl]
+    have hp : cfg.priv % 16 % 16 = b.priv := by rw [conf.priv]; omega
+    simp [handle, hph, reqOf, hh.netfn, hh.cmd, Spec.BmcSession.netfnApp, Spec.BmcSession.cmdGetAuthCap, hp]
+  refine ⟨d, _, h1, ⟨_, h2, rfl, rfl, rfl⟩, ?_, hstep, ?_, ?_⟩
+  · have := carries_of d _ h 56 [0x0e, cfg.priv % 16] hh h2 rfl
+    rw [hp16] at this; exact this
+  · exact stepLost_before md5 b st _ d _ hstep (by simp [hph])
+  · exact rxStep_reply md5 hmd5 cfg _ _ 0 [] 0 0 0 _ (Or.inl rfl) (by simp) (by decide) (by decide) hh.netfn
+      (by simp [hh.rsLun]) (by simp [hh.rqLun]) (by simp [hh.cmd, cmdSendMessage])
+
+/-- Get Session Challenge: sent outside any session, names the chosen authentication type and
+the configured user; answered with the temporary session id and the challenge -/
+theorem bmc_challenge (md5 : List Nat → List Nat) (hmd5 : ∀ x, (md5 x).length = 16)
+    (b : BmcCfg) (cfg : Cfg) (conf : Conforming b cfg) (st : BmcState) (c : Client) (h : ReqHdr) (a : Nat)
+    (hh : BmcHdr h 57) (ha : a = 0 ∨ a = 4 ∨ a = 2) (hoff : offered b.caps a = true)
+    (hph : st.phase = .capsSent) (hat : c.attached = false) :
+    ∃ d r, packStep md5 c (ipmbEncode h ([a % 16] ++ userField cfg.user)) = (c, .ok d) ∧
+      OutsideSession d ∧ Carries d 57 (a :: pad16 cfg.user) ∧
+      step md5 b st d = ({ st with phase := .challenged a }, .reply r) ∧
+      stepLost md5 b st d = (st, .reply r) ∧
+      rxStep cfg h (some r) = .ok (0 :: (leBytes 4 b.tempSid ++ b.challenge)) := by
+  have ha16 : a % 16 = a := by rcases ha with h | h | h <;> subst h <;> rfl
+  have hd : [a % 16] ++ userField cfg.user = a :: pad16 cfg.user := by rw [ha16, userField_eq]; rfl
+  have hul := pad16_length cfg.user conf.userLen
+  rw [hd]
+  obtain ⟨d, h1, h2⟩ := pack_unattached md5 c (ipmbEncode h (a :: pad16 cfg.user)) hat
+    (by simp [ipmbEncode_length, hul])
+  have hstep : step md5 b st d = ({ st with phase := .challenged a },
+      .reply (lanPacket md5 0 [] 0 0 (ipmiRsp (reqOf h (a :: pad16 cfg.user)) 0 (leBytes 4 b.tempSid ++ b.challenge)))) := by
+    rw [step_client md5 b st h 57 _ d _ hh (by simp [hph]) (by simp [hph]) h2 rfl rfl rfl rfl]
+    simp [handle, hph, reqOf, hh.netfn, hh.cmd, Spec.BmcSession.netfnApp, Spec.BmcSession.cmdGetChallenge, hul, ha16,
+      hoff, conf.user]
+  refine ⟨d, _, h1, ⟨_, h2, rfl, rfl, rfl⟩, carries_of d _ h 57 _ hh h2 rfl, hstep, ?_, ?_⟩
+  · exact stepLost_before md5 b st _ d _ hstep (by simp [hph])
+  · exact rxStep_reply md5 hmd5 cfg _ _ 0 [] 0 0 0 _ (Or.inl rfl) (by simp) (by decide) (by decide) hh.netfn
+      (by simp [hh.rsLun]) (by simp [hh.rqLun]) (by simp [hh.cmd, cmdSendMessage])
+
+theorem codeOk_of (md5 : List Nat → List Nat) (pw : List Nat) (p : LanPacket) (code : Option (List Nat))
+    (h : expectedCode md5 p.auth pw p.sid p.seq p.payload = some code) (hc : p.code = code) :
+    codeOk md5 pw p = true := by
+  simp [codeOk, h, hc]
+
+theorem handle_activate (md5 : List Nat → List Nat) (b : BmcCfg) (st : BmcState) (p : LanPacket) (rq : IpmiReq)
+    (a out : Nat) (hph : st.phase = .challenged a) (hnf : rq.netfn = 6) (hcmd : rq.cmd = 58)
+    (hpa : p.auth = a) (hps : p.sid = b.tempSid) (hcode : codeOk md5 b.pw p = true)
+    (hdata : rq.data = [a, b.priv] ++ b.challenge ++ leBytes 4 out) (ha16 : a % 16 = a)
+    (hp : b.priv % 16 = b.priv) (hch : b.challenge.length = 16) (hout : out ≠ 0) (hlt : out < 4294967296) :
+    handle md5 b st p rq = ({ st with phase := .active a none, outSeq := nextSeq out },
+      .reply (lanPacket md5 a b.pw b.sid out
+        (ipmiRsp rq 0 ([a] ++ leBytes 4 b.sid ++ leBytes 4 b.inSeq0 ++ [b.priv])))) := by
+  have hv : leVal (leBytes 4 out) = out := leVal_leBytes 4 _ hlt
+  have htk : List.take 16 (b.challenge ++ leBytes 4 out) = b.challenge := by
+    rw [List.take_append_of_le_length (by simp [hch])]
+    exact List.take_of_length_le (by simp [hch])
+  have hdr : List.drop 16 (b.challenge ++ leBytes 4 out) = leBytes 4 out := by
+    rw [← hch]; exact List.drop_left
+  simp [handle, hph, hnf, hcmd, hpa, hps, hcode, hdata, Spec.BmcSession.netfnApp, Spec.BmcSession.cmdActivate,
+    hch, ha16, hp, htk, hdr, hv, hout]
+
+/-- the client between Get Session Challenge and the activation: session object attached, under
+the temporary session id, with the chosen authentication type -/
+structure Activating (b : BmcCfg) (cfg : Cfg) (a q : Nat) (c : Client) : Prop where
+  attached : c.attached = true
+  auth : c.s.auth = a
+  sid : c.s.sid = b.tempSid
+  pw : c.s.pw = cfg.pw
+  seqLt : c.s.seq < 4294967296
+  rqSeq : c.rqSeq = q
+
+/-- Activate Session: sent under the temporary session id with the chosen authentication type,
+echoes the challenge, asks for the configured privilege level; the BMC grants the session -/
+theorem bmc_activate (md5 : List Nat → List Nat) (hmd5 : ∀ x, (md5 x).length = 16)
+    (b : BmcCfg) (cfg : Cfg) (conf : Conforming b cfg) (st : BmcState) (c : Client) (h : ReqHdr) (a q : Nat)
+    (hh : BmcHdr h 58) (ha : a = 0 ∨ a = 4 ∨ a = 2) (hph : st.phase = .challenged a)
+    (hc : Activating b cfg a q c) :
+    ∃ d r c', packStep md5 c (ipmbEncode h ([a % 16, cfg.priv % 16] ++ b.challenge ++ leBytes 4 cfg.outSeq)) =
+        (c', .ok d) ∧ Activating b cfg a q c' ∧
+      (∃ p, parseLan d = some p ∧ p.auth = a ∧ p.sid = b.tempSid ∧ codeOk md5 cfg.pw p = true) ∧
+      Carries d 58 ([a, cfg.priv] ++ b.challenge ++ leBytes 4 cfg.outSeq) ∧
+      step md5 b st d = ({ st with phase := .active a none, outSeq := nextSeq cfg.outSeq }, .reply r) ∧
+      stepLost md5 b st d = (st, .reply r) ∧
+      rxStep cfg h (some r) = .ok (0 :: ([a] ++ leBytes 4 b.sid ++ leBytes 4 b.inSeq0 ++ [b.priv])) := by
+  have ha16 : a % 16 = a := by rcases ha with h | h | h <;> subst h <;> rfl
+  have hp16 : cfg.priv % 16 = cfg.priv := Nat.mod_eq_of_lt conf.privLt
+  rw [ha16, hp16]
+  obtain ⟨d, code, h1, h2, h3⟩ := pack_attached md5 hmd5 c
+    (ipmbEncode h ([a, cfg.priv] ++ b.challenge ++ leBytes 4 cfg.outSeq)) hc.attached (by rw [hc.auth]; exact ha)
+    (by rw [hc.sid]; exact conf.tempSid) hc.seqLt (by rw [hc.pw]; exact conf.pwLen)
+    (by simp [ipmbEncode_length, conf.chalLen])
+  have hcode := codeOk_of md5 cfg.pw ⟨6, 0, 255, 7, c.s.auth, carriedSeq c.s, c.s.sid, code,
+    (ipmbEncode h ([a, cfg.priv] ++ b.challenge ++ leBytes 4 cfg.outSeq)).length,
+    ipmbEncode h ([a, cfg.priv] ++ b.challenge ++ leBytes 4 cfg.outSeq)⟩ code
+    (by rw [← hc.pw]; exact h2) rfl
+  have hstep : step md5 b st d = ({ st with phase := .active a none, outSeq := nextSeq cfg.outSeq },
+      .reply (lanPacket md5 a b.pw b.sid cfg.outSeq
+        (ipmiRsp (reqOf h ([a, cfg.priv] ++ b.challenge ++ leBytes 4 cfg.outSeq)) 0
+          ([a] ++ leBytes 4 b.sid ++ leBytes 4 b.inSeq0 ++ [b.priv])))) := by
+    rw [step_client md5 b st h 58 _ d _ hh (by simp [hph]) (by simp [hph]) h3 rfl rfl rfl rfl]
+    exact handle_activate md5 b st _ _ a cfg.outSeq hph hh.netfn hh.cmd hc.auth hc.sid (by rw [conf.pw]; exact hcode)
+      (by simp [reqOf, conf.priv]) ha16 (by rw [conf.priv]; exact hp16) conf.chalLen conf.outSeqPos conf.outSeqLt
+  refine ⟨d, _, _, h1, ⟨hc.attached, hc.auth, hc.sid, hc.pw, carriedSeq_lt _ hc.seqLt, hc.rqSeq⟩,
+    ⟨_, h3, hc.auth, hc.sid, hcode⟩, carries_of d _ h 58 _ hh h3 rfl, hstep, ?_, ?_⟩
+  · exact stepLost_before md5 b st _ d _ hstep (by simp [hph])
+  · exact rxStep_reply md5 hmd5 cfg _ _ a b.pw b.sid cfg.outSeq 0 _ ha (by rw [conf.pw]; exact conf.pwLen)
+      conf.sid conf.outSeqLt hh.netfn (by simp [hh.rsLun]) (by simp [hh.rqLun]) (by simp [hh.cmd, cmdSendMessage])
+
+/-! ### inside the session -/
+
+theorem handle_active (md5 : List Nat → List Nat) (b : BmcCfg) (st : BmcState) (p : LanPacket) (rq : IpmiReq)
+    (a : Nat) (last : Option Nat) (hph : st.phase = .active a last)
+    (hpa : p.auth = a) (hps : p.sid = b.sid) (hcode : codeOk md5 b.pw p = true)
+    (hseq : match last with
+      | none => inWindow b.inSeq0 p.seq = true ∧ p.seq ≠ 0
+      | some l => p.seq = nextSeq l) :
+    handle md5 b st p rq = inSession md5 b st a p.seq rq := by
+  cases last with
+  | none => simp at hseq; simp [handle, hph, hpa, hps, hcode, hseq]
+  | some l => simp at hseq; simp [handle, hph, hpa, hps, hcode, hseq, nextSeq_ne_zero]
+
+theorem inSession_setPriv (md5 : List Nat → List Nat) (b : BmcCfg) (st : BmcState) (a seq lvl : Nat) (rq : IpmiReq)
+    (hnf : rq.netfn = 6) (hcmd : rq.cmd = 59) (hdata : rq.data = [lvl]) :
+    inSession md5 b st a seq rq = ({ st with phase := .active a (some seq), outSeq := nextSeq st.outSeq },
+      .reply (lanPacket md5 a b.pw b.sid st.outSeq (ipmiRsp rq 0 [lvl % 16]))) := by
+  simp [inSession, hnf, hcmd, hdata, Spec.BmcSession.netfnApp, Spec.BmcSession.cmdClose, Spec.BmcSession.cmdSetPriv]
+
+theorem inSession_getDeviceId (md5 : List Nat → List Nat) (b : BmcCfg) (st : BmcState) (a seq : Nat) (rq : IpmiReq)
+    (hnf : rq.netfn = 6) (hcmd : rq.cmd = 1) :
+    inSession md5 b st a seq rq = ({ st with phase := .active a (some seq), outSeq := nextSeq st.outSeq },
+      .reply (lanPacket md5 a b.pw b.sid st.outSeq (ipmiRsp rq 0 deviceIdData))) := by
+  simp [inSession, hnf, hcmd, Spec.BmcSession.netfnApp, Spec.BmcSession.cmdClose, Spec.BmcSession.cmdSetPriv,
+    Spec.BmcSession.cmdGetDeviceId]
+
+theorem inSession_close (md5 : List Nat → List Nat) (b : BmcCfg) (st : BmcState) (a seq : Nat) (rq : IpmiReq)
+    (hnf : rq.netfn = 6) (hcmd : rq.cmd = 60) (hdata : rq.data = leBytes 4 b.sid) :
+    inSession md5 b st a seq rq = ({ st with phase := .closed, outSeq := nextSeq st.outSeq },
+      .reply (lanPacket md5 a b.pw b.sid st.outSeq (ipmiRsp rq 0 []))) := by
+  simp [inSession, hnf, hcmd, hdata, Spec.BmcSession.netfnApp, Spec.BmcSession.cmdClose]
+
+/-- The session is up: BMC in phase `active a last`, the client's session object activated with
+the granted id, and the client's stored sequence number is the last one the monitor has seen
+(the assigned initial value when none was sent yet). -/
+structure Live (b : BmcCfg) (cfg : Cfg) (a : Nat) (last : Option Nat) (st : BmcState) (c : Client) : Prop where
+  phase : st.phase = .active a last
+  outSeq : st.outSeq < 4294967296
+  attached : c.attached = true
+  auth : c.s.auth = a
+  sid : c.s.sid = b.sid
+  act : c.s.activated = true
+  pw : c.s.pw = cfg.pw
+  seq : c.s.seq = last.getD b.inSeq0
+  seqLt : c.s.seq < 4294967296
+
+/-- any request inside the session: the datagram carries the chosen authentication type, the
+granted session id, the successor of the stored sequence number and a valid authentication code;
+the monitor accepts the header whether or not the datagram arrives -/
+theorem bmc_inSession (md5 : List Nat → List Nat) (hmd5 : ∀ x, (md5 x).length = 16)
+    (b : BmcCfg) (cfg : Cfg) (conf : Conforming b cfg) (st : BmcState) (c : Client) (h : ReqHdr) (a : Nat)
+    (last : Option Nat) (cmd : Nat) (data rdata : List Nat) (ph : Nat → Phase)
+    (hh : BmcHdr h cmd) (ha : a = 0 ∨ a = 4 ∨ a = 2) (live : Live b cfg a last st c)
+    (hlen : data.length + 7 ≤ 255) (hcmd : cmd ≠ 52)
+    (hin : ∀ seq, inSession md5 b st a seq (reqOf h data) =
+      ({ st with phase := ph seq, outSeq := nextSeq st.outSeq },
+       .reply (lanPacket md5 a b.pw b.sid st.outSeq (ipmiRsp (reqOf h data) 0 rdata)))) :
+    ∃ d r, packStep md5 c (ipmbEncode h data) = ({ c with s := { c.s with seq := nextSeq c.s.seq } }, .ok d) ∧
+      SessionPacket md5 cfg.pw a b.sid (nextSeq c.s.seq) d ∧ Carries d cmd data ∧
+      step md5 b st d = ({ st with phase := ph (nextSeq c.s.seq), outSeq := nextSeq st.outSeq }, .reply r) ∧
+      stepLost md5 b st d = ({ st with phase := .active a (some (nextSeq c.s.seq)) }, .reply r) ∧
+      rxStep cfg h (some r) = .ok (0 :: rdata) := by
+  obtain ⟨d, code, h1, h2, h3⟩ := pack_attached md5 hmd5 c (ipmbEncode h data) live.attached
+    (by rw [live.auth]; exact ha) (by rw [live.sid]; exact conf.sid) live.seqLt (by rw [live.pw]; exact conf.pwLen)
+    (by rw [ipmbEncode_length]; exact hlen)
+  have hcs : carriedSeq c.s = nextSeq c.s.seq := by
+    simp [carriedSeq, live.act, incSeq_eq_nextSeq _ live.seqLt]
+  rw [hcs] at h1 h2 h3
+  have hcode := codeOk_of md5 cfg.pw ⟨6, 0, 255, 7, c.s.auth, nextSeq c.s.seq, c.s.sid, code,
+    (ipmbEncode h data).length, ipmbEncode h data⟩ code (by rw [← live.pw]; exact h2) rfl
+  have hstep : step md5 b st d = ({ st with phase := ph (nextSeq c.s.seq), outSeq := nextSeq st.outSeq },
+      .reply (lanPacket md5 a b.pw b.sid st.outSeq (ipmiRsp (reqOf h data) 0 rdata))) := by
+    rw [step_client md5 b st h cmd _ d _ hh (by simp [live.phase]) (by simp [live.phase]) h3 rfl rfl rfl rfl,
+      handle_active md5 b st _ _ a last live.phase live.auth live.sid (by rw [conf.pw]; exact hcode), hin]
+    cases last with
+    | none => have := live.seq; simp at this; simp [this, inWindow_next, nextSeq_ne_zero]
+    | some l => have := live.seq; simp at this; simp [this]
+  refine ⟨d, _, h1, ⟨_, h3, live.auth, live.sid, rfl, hcode⟩, carries_of d _ h cmd data hh h3 rfl, hstep, ?_, ?_⟩
+  · exact stepLost_active md5 b st _ d _ _ a last hstep live.phase h3
+  · exact rxStep_reply md5 hmd5 cfg _ _ a b.pw b.sid _ 0 _ ha (by rw [conf.pw]; exact conf.pwLen) conf.sid
+      live.outSeq hh.netfn (by simp [hh.rsLun]) (by simp [hh.rqLun]) (by simpa [hh.cmd, cmdSendMessage] using hcmd)
+
+/-! ### peers that relay the reference BMC
+
+The theorems are about any peer `P` whose state projects (`π`) onto a state of the reference
+BMC / monitor, and that treats each datagram in one of two ways, decided by its own state
+(`lostAt`): it hands it to the BMC and hands back the BMC's answer, or it loses it (the monitor
+has seen it, `stepLost`; no answer).  The BMC itself is the instance `π = id`, `lostAt = false`;
+the BMC behind a lossy network (`Spec.BmcSession.lossy`) is another one. -/
+
+section relay
+variable {σ : Type} (md5 : List Nat → List Nat) (b : BmcCfg) (P : σ → List Nat → σ × Option (List Nat))
+  (π : σ → BmcState) (lostAt : σ → Bool)
+
+structure Relay : Prop where
+  answers : ∀ s d, lostAt s = false → π (P s d).1 = (step md5 b (π s) d).1 ∧ (P s d).2 = (peer md5 b (π s) d).2
+  drops : ∀ s d, lostAt s = true → π (P s d).1 = (stepLost md5 b (π s) d).1 ∧ (P s d).2 = none
+
+/-- from state `s` on exactly `k` datagrams are lost, the next one is answered, and then `Q`
+holds of the peer's state — whatever the datagrams are -/
+def LossRun (Q : σ → Prop) : Nat → σ → Prop
+  | 0, s => lostAt s = false ∧ ∀ d, Q (P s d).1
+  | k + 1, s => lostAt s = true ∧ ∀ d, LossRun Q k (P s d).1
+
+/-- in each of the next `n` requests at most `R` datagrams are lost before one is answered -/
+def Within (R : Nat) : Nat → σ → Prop
+  | 0, _ => True
+  | n + 1, s => ∃ k, k ≤ R ∧ LossRun P lostAt (Within R n) k s
+
+variable {md5 b P π lostAt}
+
+theorem LossRun.imp {Q Q' : σ → Prop} (h : ∀ s, Q s → Q' s) : ∀ {k : Nat} {s : σ},
+    LossRun P lostAt Q k s → LossRun P lostAt Q' k s := by
+  intro k
+  induction k with
+  | zero => intro s hs; exact ⟨hs.1, fun d => h _ (hs.2 d)⟩
+  | succ k ih => intro s hs; exact ⟨hs.1, fun d => ih (hs.2 d)⟩
+
+theorem relay_reply (rel : Relay md5 b P π lostAt) (s : σ) (hl : lostAt s = false) (d r : List Nat)
+    (st' : BmcState) (h : step md5 b (π s) d = (st', .reply r)) : π (P s d).1 = st' ∧ (P s d).2 = some r := by
+  have h1 := rel.answers s d hl
+  simp only [peer, h] at h1
+  exact h1
+
+theorem relay_lost (rel : Relay md5 b P π lostAt) (s : σ) (hl : lostAt s = true) (d r : List Nat)
+    (st' : BmcState) (h : stepLost md5 b (π s) d = (st', .reply r)) : π (P s d).1 = st' ∧ (P s d).2 = none := by
+  have h1 := rel.drops s d hl
+  simp only [h] at h1
+  exact h1
+
+theorem peer_fst (st : BmcState) (d : List Nat) : (peer md5 b st d).1 = (step md5 b st d).1 := by
+  unfold peer; split <;> simp_all
+
+/-- the reference BMC itself -/
+theorem relay_self : Relay md5 b (peer md5 b) id (fun _ => false) :=
+  ⟨fun st d _ => ⟨peer_fst st d, rfl⟩, fun _ _ h => by simp at h⟩
+
+theorem within_self (R n : Nat) (st : BmcState) : Within (peer md5 b) (fun _ => false) R n st := by
+  induction n generalizing st with
+  | zero => trivial
+  | succ n ih => exact ⟨0, Nat.zero_le _, rfl, fun d => ih _⟩
+
+/-- the reference BMC behind a lossy network -/
+theorem relay_lossy (plan : Nat → Bool) : Relay md5 b (lossy md5 b plan) Prod.snd (fun s => plan s.1) := by
+  constructor
+  · rintro ⟨i, st⟩ d h
+    simp only at h
+    simp only [lossy, h]
+    exact ⟨peer_fst st d, rfl⟩
+  · rintro ⟨i, st⟩ d h
+    simp only at h
+    simp [lossy, h]
+
+/-- the network never loses more than `R` datagrams in a row -/
+def BoundedLoss (plan : Nat → Bool) (R : Nat) : Prop := ∀ i, ∃ k, k ≤ R ∧ plan (i + k) = false
+
+theorem least_false (p : Nat → Bool) (k : Nat) (hk : p k = false) :
+    ∃ k', k' ≤ k ∧ (∀ j, j < k' → p j = true) ∧ p k' = false := by
+  induction k using Nat.strongRecOn with
+  | _ k ih =>
+    by_cases h : ∀ j, j < k → p j = true
+    · exact ⟨k, Nat.le_refl _, h, hk⟩
+    · have ⟨j, hj⟩ : ∃ j, j < k ∧ p j = false := by
+        apply Classical.byContradiction
+        intro hn
+        apply h
+        intro j hj
+        cases hp : p j
+        · exact absurd ⟨j, hj, hp⟩ hn
+        · rfl
+      obtain ⟨k', h1, h2, h3⟩ := ih j hj.1 hj.2
+      exact ⟨k', by omega, h2, h3⟩
+
+theorem lossRun_lossy (plan : Nat → Bool) (Q : Nat × BmcState → Prop) (k : Nat) :
+    ∀ (i : Nat) (st : BmcState), (∀ j, j < k → plan (i + j) = true) → plan (i + k) = false →
+      (∀ st', Q (i + k + 1, st')) → LossRun (lossy md5 b plan) (fun s => plan s.1) Q k (i, st) := by
+  induction k with
+  | zero =>
+    intro i st _ h0 hq
+    have hi : plan i = false := by simpa using h0
+    refine ⟨hi, fun d => ?_⟩
+    have e : (lossy md5 b plan (i, st) d).1 = (i + 1, (peer md5 b st d).1) := by simp [lossy, hi]
+    rw [e]
+    simpa using hq (peer md5 b st d).1
+  | succ k ih =>
+    intro i st hlt h0 hq
+    have hi : plan i = true := by simpa using hlt 0 (by omega)
+    refine ⟨hi, fun d => ?_⟩
+    have e : (lossy md5 b plan (i, st) d).1 = (i + 1, (stepLost md5 b st d).1) := by simp [lossy, hi]
+    rw [e]
+    refine ih (i + 1) _ (fun j hj => ?_) ?_ (fun st' => ?_)
+    · have := hlt (j + 1) (by omega)
+      rwa [show i + (j + 1) = i + 1 + j by omega] at this
+    · rwa [show i + 1 + k = i + (k + 1) by omega]
+    · have := hq st'
+      rwa [show i + (k + 1) + 1 = i + 1 + k + 1 by omega] at this
+
+theorem within_lossy (plan : Nat → Bool) (R : Nat) (h : BoundedLoss plan R) (n : Nat) :
+    ∀ (i : Nat) (st : BmcState), Within (lossy md5 b plan) (fun s => plan s.1) R n (i, st) := by
+  induction n with
+  | zero => intro _ _; trivial
+  | succ n ih =>
+    intro i st
+    obtain ⟨k, hk, hp⟩ := h i
+    obtain ⟨k', h1, h2, h3⟩ := least_false (fun j => plan (i + j)) k hp
+    exact ⟨k', by omega, lossRun_lossy plan _ k' i st h2 h3 (fun st' => ih _ _)⟩
+
+end relay
 
 end PyIpmi.Session
